@@ -199,11 +199,27 @@ Theorem isort_idx_eq : forall l : list A, isort_idx comp d l = insertion_sort co
 Proof. intro l. unfold isort_idx, insertion_sort. exact (outer_fold (length l) [] l eq_refl). Qed.
 End SortIdx.
 
+(* array equality is list equality under the element's == ; nothing is assumed about eqA *)
+Lemma arr_eqb_Forall2 : forall {A} (eqA : A -> A -> bool) (l1 l2 : list A),
+  arr_eqb eqA l1 l2 = true <-> Forall2 (fun x y => eqA x y = true) l1 l2.
+Proof.
+  intros A eqA. induction l1 as [|x r IH]; intros [|y s]; cbn [arr_eqb]; split; intro H;
+    try discriminate; try constructor; try (inversion H; fail).
+  - apply andb_prop in H. tauto.
+  - apply andb_prop in H. apply IH. tauto.
+  - inversion H; subst. apply andb_true_intro. split; [assumption|]. now apply IH.
+Qed.
+
 Lemma array_identities_all : forall (A : Type) (l : list A) (d : A), l <> [] ->
   arr_back l = Some (last l d) /\ arr_front l = Some (hd d l) /\
   (forall i, i < length l -> arr_index l i = Some (nth i l d)) /\
-  (forall ls : list (list A), arr_concat ls = concat ls).
+  (forall ls : list (list A), arr_concat ls = concat ls) /\
+  (* == / != : list equality under the element type's own ==, about which NOTHING is assumed (NaN, -0.0, padding) *)
+  (forall (eqA : A -> A -> bool) l1 l2,
+     (arr_eqb eqA l1 l2 = true <-> Forall2 (fun x y => eqA x y = true) l1 l2) /\
+     arr_neb eqA l1 l2 = negb (arr_eqb eqA l1 l2)).
 Proof.
   intros A l d H. split; [now apply arr_back_last|]. split; [now apply arr_front_hd|].
-  split; [intros i Hi; now apply arr_index_nth | apply arr_concat_concat].
+  split; [intros i Hi; now apply arr_index_nth |]. split; [apply arr_concat_concat|].
+  intros eqA l1 l2. split; [apply arr_eqb_Forall2 | reflexivity].
 Qed.
